@@ -441,6 +441,21 @@ def value_checks(rdclass, rdtype, wire, use_origin, fails):
             _rt(x_rel, x_absn, rdclass, rdtype, kw, ORIGIN, False, None, True, None, tag + " mode=absout", fails)
             # relativize_to a different origin
             _rt(x_rel, x_sub, rdclass, rdtype, kw, None, False, ORIGIN, True, ORIGIN2, tag + " mode=relto", fails)
+        if sid == "default":
+            # the legacy keyword interface of Rdata.to_text (BaseStyle.from_keywords): chunksize / separator
+            for lkw in ({"chunksize": 5, "separator": "\t"}, {"chunksize": 0}, {"separator": "  "}):
+                try:
+                    ltext = x_abs.to_text(**lkw)
+                except Exception as e:  # noqa
+                    fails.append(("to_text raised", f"{tag} mode=legacy-kw kw={lkw} exc={_short(e)}"))
+                    break
+                try:
+                    y = dns.rdata.from_text(rdclass, rdtype, ltext)
+                    if y != x_abs:
+                        fails.append(("text parses back to a different record", f"{tag} mode=legacy-kw kw={lkw} text={ltext[:120]!r}"))
+                except Exception as e:  # noqa
+                    fails.append(("text does not parse back", f"{tag} mode=legacy-kw kw={lkw} text={ltext[:120]!r} exc={_short(e)}"))
+                    break
         if sid in ("default", "odd"):
             # NameStyle.omit_final_dot: absolute names lose their final dot; the root origin restores it
             _rt(x_abs, x_abs, rdclass, rdtype, dict(kw, omit_final_dot=True), None, False, dns.name.root, False, None,
